@@ -171,7 +171,12 @@ class X690Model:
         a = dict(zip(names, args))
         a.update(kwargs)
         data = a["data"]
-        idx = a.get("start_index", 0) or 0
+        idx = a.get("start_index", 0)
+        if isinstance(idx, wire.WIdx):
+            idx = idx.k
+        elif idx is None or isinstance(idx, bool) or not isinstance(idx, int) or idx != 0:
+            # start_index is a BYTE offset: 0, or what an earlier decode() of this value returned
+            raise Undecided("decode() at start_index=%r: only offset 0 and offsets returned by decode() are modelled" % (idx,))
         enforce = a.get("enforce_type")
         strict = a.get("strict", False)
         if not wire.is_wire(data):
@@ -192,7 +197,8 @@ class X690Model:
         if strict and idx + 1 < len(tl):
             cls = self.rt.get_class(self.rt.program.find_class("x690.exc:IncompleteDecoding"), interp)
             raise PyExc(self.rt.make_exception(cls, ["remaining bytes"]))
-        return (obj, idx + 1)
+        # the second component is the byte offset behind the TLV just read
+        return (obj, wire.WIdx(idx + 1))
 
     def h_cls_decode(self, interp, closure, args, kwargs):
         cls, data = args[0], args[1]
